@@ -58,24 +58,31 @@ def pythiaWrites (cfg : Cfg) (op0 : SugOp) (st : Study) (need : Nat) (out : List
     if !r.1 then [.metadata delta, failWrite op0]
     else .metadata delta :: createWrites cfg op0 r.2 need out sugg
 
+/-- the writes of `suggestRest` (the operation record `op0` already exists) -/
+def suggestRestWrites (cfg : Cfg) (op0 : SugOp) (st : Study) (client : String) (count : Nat) (alg : AlgOutcome) :
+    List Write :=
+  let active := st.trials.filter fun t => t.state == .active && t.client == client
+  if active.length ≥ count then
+    [.putOp { op0 with done := true, result := .trials ((active.take count).map (·.id)) }]
+  else
+    let pool := st.trials.filter (·.state == .requested)
+    let assigned := assignRequested client (count - active.length) pool
+    let st1 := assigned.foldl Study.putTrial st
+    let out := active ++ assigned
+    assigned.map .putTrial ++
+      (if out.length == count then [.putOp { op0 with done := true, result := .trials (out.map (·.id)) }]
+       else pythiaWrites cfg op0 st1 (count - out.length) out alg)
+
 /-- the datastore writes of `SuggestTrials` (after the study checks), in order -/
 def suggestWrites (cfg : Cfg) (st : Study) (client : String) (count : Nat) (alg : AlgOutcome) : List Write :=
   let ops := opsOf st client
   match ops.find? (fun o => !o.done) with
-  | some _ => []
+  | some o =>
+    -- resuming an abandoned operation issues the writes of a fresh one except `create_suggestion_operation`
+    if cfg.resumesAbandonedOp then suggestRestWrites cfg { o with client := client } st client count alg else []
   | none =>
     let op0 : SugOp := { client := client, num := ops.length + 1, done := false, result := .none }
-    let active := st.trials.filter fun t => t.state == .active && t.client == client
-    if active.length ≥ count then
-      [.createOp op0, .putOp { op0 with done := true, result := .trials ((active.take count).map (·.id)) }]
-    else
-      let pool := st.trials.filter (·.state == .requested)
-      let assigned := assignRequested client (count - active.length) pool
-      let st1 := assigned.foldl Study.putTrial { st with sugOps := st.sugOps ++ [op0] }
-      let out := active ++ assigned
-      .createOp op0 :: assigned.map .putTrial ++
-        (if out.length == count then [.putOp { op0 with done := true, result := .trials (out.map (·.id)) }]
-         else pythiaWrites cfg op0 st1 (count - out.length) out alg)
+    .createOp op0 :: suggestRestWrites cfg op0 { st with sugOps := st.sugOps ++ [op0] } client count alg
 
 /-- the study states a restarted server can find after a crash inside `SuggestTrials` -/
 def suggestCrashStates (cfg : Cfg) (st : Study) (client : String) (count : Nat) (alg : AlgOutcome) : List Study :=
